@@ -13,6 +13,8 @@ type c08 struct{}
 
 func init() { engine.Register(c08{}) }
 
+func (c08) PostGenerate(r *engine.Rand, sc *engine.Scenario) { chooseEnv(r, sc) }
+
 func (c08) ID() string { return "C08" }
 
 func (c08) Budget(tier string) int {
